@@ -994,10 +994,10 @@ func runB(c *hx.Ctx, or *hx.Oracle, r *hx.RNG, bc BCase, budget int) {
 			o2 := runReal(m, full, false, 0, 0)
 			b.checkRun(o2, "crash-restart")
 			if o2.res != "ok" {
-				c.Violation("crash-restart-failed", fmt.Sprintf("counts=%v: crash after write %d, restart: %v", bc.Counts, k+1, o2.err), map[string]any{"kind": "B", "case": bc}, false)
+				c.Violation("crash-restart-failed", fmt.Sprintf("counts=%v: crash after write %d, restart: %v", bc.Counts, k%nWrites+1, o2.err), map[string]any{"kind": "B", "case": bc}, false)
 				continue
 			}
-			b.checkFinal(m, "crash-restart", abs, tok, fmt.Sprintf("process died after write %d of %d; abstract state at the crash: %s", k+1, nWrites, abs))
+			b.checkFinal(m, "crash-restart", abs, tok, fmt.Sprintf("process died after write %d of uninterrupted run #%d (%d writes per run); abstract state at the crash: %s", k%nWrites+1, k/nWrites+1, nWrites, abs))
 			c.Count(fmt.Sprintf("%s:crash:%d", key, k), true)
 		}
 	}
@@ -1127,7 +1127,7 @@ func main() {
 		}
 		c.LoadReplay(&rp)
 		if rp.Kind == "B" {
-			for i := 0; i < 8 && c.NViolations() == 0; i++ { // commit order is scheduler-dependent
+			for i := 0; i < 3; i++ { // commit order is scheduler-dependent: a few attempts
 				runB(c, or, rng, rp.Case, 4)
 			}
 		} else {
